@@ -1,0 +1,51 @@
+//go:build verif
+
+package btc
+
+// Verification-only exports (hook H6 of /verif/DESIGN.md): plain wrappers that make the
+// package-internal UTXO bookkeeping reachable from the external property harness. No logic.
+
+import (
+	"github.com/btcsuite/btcd/wire"
+	"github.com/polynetwork/poly/native"
+)
+
+func VerifPutUtxos(service *native.NativeService, chainID uint64, utxoKey string, utxos *Utxos) {
+	putUtxos(service, chainID, utxoKey, utxos)
+}
+
+func VerifGetUtxos(service *native.NativeService, chainID uint64, utxoKey string) (*Utxos, error) {
+	return getUtxos(service, chainID, utxoKey)
+}
+
+func VerifGetStxos(service *native.NativeService, chainID uint64, utxoKey string) (*Utxos, error) {
+	return getStxos(service, chainID, utxoKey)
+}
+
+func VerifChooseUtxos(service *native.NativeService, chainID uint64, amount int64, outs []*wire.TxOut, rk []byte,
+	m, n int) ([]*Utxo, int64, int64, error) {
+	return chooseUtxos(service, chainID, amount, outs, rk, m, n)
+}
+
+// ---- property C17 part B (storage-key injectivity): thin wrappers of the unexported put/get helpers,
+// used as black-box key constructors. No logic.
+
+func VerifPutStxos(service *native.NativeService, chainID uint64, stxoKey string, stxos *Utxos) {
+	putStxos(service, chainID, stxoKey, stxos)
+}
+
+func VerifPutBtcMultiSignInfo(service *native.NativeService, txid []byte, info *MultiSignInfo) error {
+	return putBtcMultiSignInfo(service, txid, info)
+}
+
+func VerifGetBtcMultiSignInfo(service *native.NativeService, txid []byte) (*MultiSignInfo, error) {
+	return getBtcMultiSignInfo(service, txid)
+}
+
+func VerifPutBtcFromInfo(service *native.NativeService, txid []byte, info *BtcFromInfo) error {
+	return putBtcFromInfo(service, txid, info)
+}
+
+func VerifGetBtcFromInfo(service *native.NativeService, txid []byte) (*BtcFromInfo, error) {
+	return getBtcFromInfo(service, txid)
+}
